@@ -6,11 +6,16 @@ import core
 from core import num_canon
 
 ID = "C05"
-LEAN_MODULES = ["KaVerif.Props.C05", "KaVerif.Props.C05Table"]
-GEN = ["Registry"]
+# Props/CombBodies: the IntRange methods, the Combinatoric constructor, lazy_factorial / lazy_choose TRANSLATED from the source
+# (translate/gen_combbodies.py -> Gen/CombBodies.lean, regenerated on every run) are the definitions of Model/Comb.lean
+LEAN_MODULES = ["KaVerif.Props.C05", "KaVerif.Props.C05Table", "KaVerif.Props.CombBodies"]
+GEN = ["Registry", "CombBodies"]
 THEOREMS = ["KaVerif.C05_range_meaning", "KaVerif.C05_difference", "KaVerif.C05_difference_prod", "KaVerif.C05_mul",
             "KaVerif.C05_resolve", "KaVerif.C05_coerce", "KaVerif.C05_factorial", "KaVerif.C05_choose",
-            "KaVerif.C05_eager_is_bigint", "KaVerif.C05_expr", "KaVerif.C05_dispatch_table"]
+            "KaVerif.C05_eager_is_bigint", "KaVerif.C05_expr", "KaVerif.C05_dispatch_table",
+            "KaVerif.BODIES_comb_copy", "KaVerif.BODIES_comb_is_empty", "KaVerif.BODIES_comb_intersects",
+            "KaVerif.BODIES_comb_difference", "KaVerif.BODIES_comb_init", "KaVerif.BODIES_comb_lazy_factorial",
+            "KaVerif.BODIES_comb_lazy_choose", "KaVerif.BODIES_comb_coverage"]
 RULE = ("(1) IntRange.difference/intersects on EVERY quadruple of bounds in a window around 0 (all 13 Allen relations, "
         "single-point, empty, negative and zero bounds) plus random wide ranges; (2) Combinatoric.mul and .resolve called "
         "directly on random lists of non-empty ranges (factorial-shaped [2,n], single points incl. 0 and negatives, general "
